@@ -285,9 +285,9 @@ class C06(Prop):
     title = "Reference counts are exact: no leaks, nothing freed while referenced"
     lean_modules = ["NV.C06.Props", "NV.C06.Witness"]
     theorems = ["NV.C06.widths_agree", "NV.C06.ref_eq_holders", "NV.C06.no_free_while_held",
-                "NV.C06.primitives_preserve_invariant", "NV.C06.string_never_freed_while_held",
+                "NV.C06.primitives_preserve_invariant", "NV.C06.string_never_freed_while_held", "NV.C06.string_cells_never_freed_while_held",
                 "NV.C06.string_saturates", "NV.C06.counters_exact", "NV.C06.balanced_history_returns_to_baseline",
-                "NV.C06.run_ok", "NV.C06.mstep_ok", "NV.C06.Fits_of_le"]
+                "NV.C06.run_ok", "NV.C06.mstep_ok", "NV.C06.Fits_of_le", "NV.C06.Fits_of_size"]
     witness_theorems = ["NV.C06.wrap_uaf", "NV.C06.wrap_uaf_state", "NV.C06.cycle_leaks",
                         "NV.C06.object_cycle_cut_by_destruct", "NV.C06.prog_wrap_uaf"]
     consts = [("refBits", "sizeof(((refed_t*)0)->ref) * 8"),
